@@ -37,4 +37,4 @@ Qed.
 
 (* whereas the pointwise hypothesis is satisfiable, e.g. on perfect-square discriminants *)
 Lemma sqrt_ok_at_example : sqrt_ok_at (fun _ => 12) 144.
-Proof. intros _. reflexivity. Qed.
+Proof. intros _. split; [discriminate | reflexivity]. Qed.
